@@ -19,20 +19,26 @@ import (
 // (APPEND) write through one key into the bytes behind another.
 //
 // Inventoried over memdb (tests and `verif` files excluded), per function:
-//   write sites   : x[i] = …, x[i] op= …, x[i]++ ; copy(x…, …) ; append(x…, …) ; strconv.Append*(x…, …) / fmt.Append*(x…, …) /
-//                   utf8.AppendRune / binary.Append* ; Read/ReadFull/ReadAtLeast/PutUint*/PutVarint/PutUvarint(x…)   with x a []byte
-//   install sites : lhs = v with lhs not a plain local (map element, struct field, dereference, package variable) and v a []byte;
-//                   a call of a function / method of the repository outside package resp that receives a []byte-typed argument
+//
+//	write sites   : x[i] = …, x[i] op= …, x[i]++ ; copy(x…, …) ; append(x…, …) ; strconv.Append*(x…, …) / fmt.Append*(x…, …) /
+//	                utf8.AppendRune / binary.Append* ; Read/ReadFull/ReadAtLeast/PutUint*/PutVarint/PutUvarint/bytes.NewBuffer(x…)   with x a []byte
+//	install sites : lhs = v with lhs not a plain local (map element, struct field, dereference, package variable) and v a []byte;
+//	                a call of a function / method of the repository outside package resp that receives a []byte-typed argument
+//
 // each with the CLASS of the slice concerned, from a per-function, flow-insensitive provenance analysis:
-//   fresh   — make, composite literal, []byte(string), nil, append / strconv.Append* onto a fresh slice, bytes.Clone/Repeat/Join/…,
-//             results of repository functions all of whose returns are fresh, locals every assignment of which is fresh
-//   param   — a parameter of the function (or an element / sub-slice of one; in an executor: the command words, each in the parser's own buffer)
-//   stored  — read from a map / slice element, a struct field, a package variable, a type assertion of such a value, the result of a
-//             repository function that returns one
-//   unknown — anything else (results of dynamic calls, of standard-library functions not known to copy, channel receives)
+//
+//	fresh   — make, composite literal, []byte(string), nil, append / strconv.Append* onto a fresh slice, bytes.Clone/Repeat/Join/…,
+//	          results of repository functions all of whose returns are fresh, locals every assignment of which is fresh
+//	param   — a parameter of the function (or an element / sub-slice of one; in an executor: the command words, each in the parser's own buffer)
+//	stored  — read from a map / slice element, a struct field, a package variable, a type assertion of such a value, the result of a
+//	          repository function that returns one
+//	unknown — anything else (results of dynamic calls, of standard-library functions not known to copy, channel receives)
+//
 // fresh < param < stored < unknown; a local's class is the join over all its assignments (containers: over everything put in).
 // Trusted / not covered: this extractor; in-place writes through sort.*, slices.*, bytes.Buffer internals or unsafe are not listed
-// (memdb has none on byte slices); packages other than memdb are summarised for their results only.
+// (memdb has none on byte slices); packages other than memdb are summarised for their results only; values moved between keys with static
+// type `any` (RENAME, the *STORE commands) are not install sites (a command that COPIED a stored value that way would not be seen here - the
+// alias engine's RENAME / neighbour scenarios are the net for it).
 type aliasSite struct {
 	File     string `json:"file"`
 	Func     string `json:"func"`
@@ -146,7 +152,8 @@ func appendLike(name string) bool {
 func fillLike(name string) bool {
 	i := strings.LastIndex(name, ".")
 	switch name[i+1:] {
-	case "Read", "ReadFull", "ReadAtLeast", "PutUint16", "PutUint32", "PutUint64", "PutVarint", "PutUvarint":
+	case "Read", "ReadFull", "ReadAtLeast", "PutUint16", "PutUint32", "PutUint64", "PutVarint", "PutUvarint", "NewBuffer":
+		// bytes.NewBuffer(x): later Writes go into x's spare capacity
 		return true
 	}
 	return false
